@@ -394,7 +394,8 @@ void Harness::onCallback(int state, int method, int injected, const void* self, 
 				if (a.a < 0 || a.a >= shape->n) break;
 				if (inActivation && shape->isOrtho(0) && world->plan.wp.avoid.count("activation_request_ortho_root")) {
 					x.k = EV_SKIP; x.a = a.kind; x.b = a.a; push(x); break; }
-				if (isGuard && world->plan.wp.avoid.count("substitution_limit_leftover") && round >= node->substitutionLimit() - 1) {
+				// (under the C04 lens the storm is allowed to hit the limit: the run then ends on the documented assertion, after the round count was checked)
+				if (isGuard && world->plan.wp.avoid.count("substitution_limit_leftover") && !world->wants("C04") && round >= node->substitutionLimit() - 1) {
 					x.k = EV_SKIP; x.a = a.kind; x.b = a.a; push(x); world->probe("last_round_request_skipped"); break; }
 				if (respectQueue) {
 					std::vector<Tr> q; ctl.requests(q);
